@@ -10,6 +10,7 @@ def build(chk):
     infscreen.c05_obligations(chk)
     infscreen.row_frame_obligations(chk)
     chk.bounded_native("histories of add_row / read / print on both variants (internal size larger than requested)", "add_row", "5 constructions, 120 steps (quick) / 600 (thorough)", "aotools/turbulence/infinitephasescreen.py:PhaseScreen.add_row")
+    chk.bounded_native("badly conditioned but constructible screens (outer scale 1e7 / 1e8 m): 1500 rows stay finite and of the size of the initial screen (stable recursion)", "stable", "2 constructions x 1500 rows", "aotools/turbulence/infinitephasescreen.py:PhaseScreen.makeAMatrix")
     chk.bounded_native("several screens of one geometry and different r0 in one process keep their own matrices", "multi", "3 screens", "aotools/turbulence/infinitephasescreen.py:PhaseScreen.makeBMatrix")
     # the recursion clause (stationary covariance = the von Karman covariance) rests on the A / B identities: C04's contract is re-checked here
     with chk.borrow("C04"):
